@@ -83,6 +83,8 @@ def REQUIRED(tier):
     req = {
         "native.asan-ubsan.kernel-calls": 40000 * k, "native.asan-ubsan.elements-compared": 4 * 10 ** 6 * k,
         "native.asan-ubsan.registered-kernels": 8,
+        "native.asan-ubsan.alias.calls-with-both-arguments-in-one-buffer": 5000 * k, "native.asan-ubsan.alias.same-start-address": 1500 * k,
+        "native.asan-ubsan.alias.same-array-twice": 100 * k,
         "native.asan-ubsan.noncontiguous-argument-calls": 25000 * k, "native.asan-ubsan.noncontiguous-elements-compared": 10 ** 6 * k,
         "native.asan-ubsan.arguments-converted-at-call-boundary": 60000 * k, "native.tsan.concurrent-calls": 300, "native.tsan.registered-kernels": 8,
         "kernel.cases": 250 * k, "kernel.elements-compared": 10 ** 5 * k, "kernel.noncontiguous-or-foreign-dtype-cases": 100 * k,
@@ -281,7 +283,7 @@ def run_native(spec, ctx):
                             for n, t, fr, fa, fb in reg3 if fr != ""})
         other = sorted(set(re.findall(r"^OTHER (\S+)$", out, re.M)))
         val = {k: int(v) for k, v in re.findall(r"^(CALLS|ELEMS|NMISMATCH|NSHAPE|NINPUTCHANGED|NRAISED|THREADS|THREADMISMATCH|NONCONTIGCALLS|"
-                                                r"NONCONTIGELEMS|CASTCOPY|CASTPASS|PASSNONCONTIG) (\d+)$", out, re.M)}
+                                                r"NONCONTIGELEMS|CASTCOPY|CASTPASS|PASSNONCONTIG|ALIASCALLS|ALIASSAMESTART|ALIASIDENTICAL|ALIASOVERLAP) (\d+)$", out, re.M)}
         layouts = {k: int(v) for k, v in re.findall(r"^LAYOUT (\S+) (\d+)$", out, re.M)}
         ctx.count(f"native.{tag}.registered-kernels", len(reg))
         ctx.note(f"part2_native_{san}", {
@@ -329,6 +331,10 @@ def run_native(spec, ctx):
             ctx.count("native.asan-ubsan.arguments-copied-to-contiguous-by-cast", val.get("CASTCOPY", 0))
             ctx.count("native.asan-ubsan.arguments-passed-through-by-cast", val.get("CASTPASS", 0))
             ctx.count("native.asan-ubsan.noncontiguous-arguments-reaching-a-kernel", val.get("PASSNONCONTIG", 0))
+            ctx.count("native.asan-ubsan.alias.calls-with-both-arguments-in-one-buffer", val.get("ALIASCALLS", 0))
+            ctx.count("native.asan-ubsan.alias.same-start-address", val.get("ALIASSAMESTART", 0))
+            ctx.count("native.asan-ubsan.alias.same-array-twice", val.get("ALIASIDENTICAL", 0))
+            ctx.count("native.asan-ubsan.alias.overlapping-windows", val.get("ALIASOVERLAP", 0))
             for lay, n in layouts.items():
                 ctx.count(f"native.asan-ubsan.layout.{lay}", n)
         else:
